@@ -15,6 +15,7 @@ pub fn run(ctx: &mut Ctx) {
     if part.is_empty() || part == "sizes" { sizes(ctx); }
     if part.is_empty() || part == "cycles" { cycles(ctx); }
     if part.is_empty() || part == "refused" { refused(ctx); sealed(ctx); }
+    if part.is_empty() || part == "cycles" { unwinding(ctx); }
 }
 
 // Total number of bytes of address space mapped from `file`, and the number of mapping lines.
@@ -430,3 +431,51 @@ fn sealed(ctx: &mut Ctx) {
 
 #[cfg(miri)]
 fn sealed(_: &mut Ctx) {}
+
+// Maps dropped by stack unwinding: a panic caught further up, a panicking worker thread that is joined. The process goes
+// on, so "after the map is dropped no part of the file remains mapped" applies to these drops as to any other.
+#[cfg(not(miri))]
+fn unwinding(ctx: &mut Ctx) {
+    if !ctx.mine(2) { return; }
+    for (k, &size) in [8usize, 4096, 4096 * 3 + 8, 65536, 1 << 20].iter().enumerate() {
+        for mode in [MappingMode::ReadOnly, MappingMode::Mutable] {
+            if !ctx.begin_case() { continue; }
+            let name = format!("{}/vmon-c18u-{}-{}-{}-{}", ctx.tmpdir, std::process::id(), ctx.shard, k, if mode == MappingMode::Mutable { "m" } else { "r" });
+            let content = file_content(size, 0xD0 + k as u64);
+            if std::fs::write(&name, &content).is_err() { ctx.inconclusive(format!("could not write {}", name)); continue; }
+            let first = u64::from_le_bytes(content[..8].try_into().unwrap());
+            // (a) caught on the same thread, two frames below the map.
+            let r = guard(|| {
+                let map = MemoryMap::new(&name, mode).unwrap();
+                let alive = mapped_bytes(&name).0;
+                let s: &[u64] = map.as_ref();
+                if s[0] != first || alive == 0 { return (alive, false); }
+                let inner = std::hint::black_box(s[0]);
+                if inner == first { panic!("vmon: deliberate panic while a map is alive"); }
+                (alive, true)
+            });
+            ctx.checks += 1;
+            match r {
+                Ok((alive, _)) => ctx.inconclusive(format!("unwinding: the map of {} was not usable ({} bytes mapped)", name, alive)),
+                Err(_) => {
+                    let (bytes, lines) = mapped_bytes(&name);
+                    if bytes != 0 { ctx.violation("map.drop.unwinding.still_mapped", format!("{} bytes in {} mapping(s) of a {}-byte file are still mapped after the map ({:?}) was dropped by a panic that was caught", bytes, lines, size, mode)); }
+                },
+            }
+            // (b) a worker thread panics while it owns a map; the thread is joined.
+            let nm = name.clone();
+            let h = std::thread::spawn(move || { let map = MemoryMap::new(&nm, mode).unwrap(); let s: &[u64] = map.as_ref(); let x = std::hint::black_box(s[0]); if x == first { panic!("vmon: deliberate panic in a worker thread that owns a map"); } x });
+            let joined = h.join();
+            ctx.checks += 1;
+            if joined.is_ok() { ctx.inconclusive("unwinding: the worker thread did not panic".to_string()); }
+            let (bytes, lines) = mapped_bytes(&name);
+            if bytes != 0 { ctx.violation("map.drop.unwinding.still_mapped", format!("{} bytes in {} mapping(s) of a {}-byte file are still mapped after a worker thread that owned the map ({:?}) panicked and was joined", bytes, lines, size, mode)); }
+            let _ = std::fs::remove_file(&name);
+            ctx.case(hash64(&[0xD1, k as u64, (mode == MappingMode::Mutable) as u64]), true);
+        }
+    }
+    ctx.sample(|| "unwinding: maps (both modes, 8 B - 1 MiB) dropped by a caught panic and by a panicking worker thread; /proc/self/maps afterwards".to_string());
+}
+
+#[cfg(miri)]
+fn unwinding(_: &mut Ctx) {}
